@@ -241,6 +241,42 @@ BENIGN = [
     ("where-with-zeros-like", [(NV, "    lambda ans, c, x=None, y=None: unbroadcast_f(x, lambda g: anp.where(c, g, anp.zeros(g.shape))),", "    lambda ans, c, x=None, y=None: unbroadcast_f(x, lambda g: anp.where(c, g, anp.zeros_like(g))),")]),
 ]
 
+
+
+def _kept_patches():
+    """Independently written changes kept under /verif/seeded: every <Cxx>*/patch.diff that its own property's
+    check reported when it was evaluated (evaluation.json) is a mutant for that property (any rule); every
+    benign/<id>/patch.diff is a behaviour-preserving refactoring that must leave all checks silent."""
+    import json
+
+    base = os.path.join(os.path.dirname(os.path.dirname(os.path.abspath(__file__))), "seeded")
+    muts, bens = [], []
+    if not os.path.isdir(base):
+        return muts, bens
+    for sid in sorted(os.listdir(base)):
+        pd = os.path.join(base, sid, "patch.diff")
+        evf = os.path.join(base, sid, "evaluation.json")
+        own = sid.split("-")[0]
+        if sid.startswith("C") and os.path.exists(pd) and os.path.exists(evf):
+            try:
+                fired = json.load(open(evf)).get("checks_fired", {})
+            except Exception:
+                continue
+            if own in fired:
+                muts.append((f"seeded/{sid}", {own: ""}, [("<patch>", pd, "")]))
+    bdir = os.path.join(base, "benign")
+    if os.path.isdir(bdir):
+        for bid in sorted(os.listdir(bdir)):
+            pd = os.path.join(bdir, bid, "patch.diff")
+            if os.path.exists(pd):
+                bens.append((f"seeded/benign/{bid}", [("<patch>", pd, "")]))
+    return muts, bens
+
+
+_SEED_MUTANTS, _SEED_BENIGN = _kept_patches()
+MUTANTS = MUTANTS + _SEED_MUTANTS
+BENIGN = BENIGN + _SEED_BENIGN
+
 ALL_PROPS = ["C01", "C02", "C03", "C04", "C05", "C06", "C07", "C08", "C09", "C10", "C11", "C12", "C13", "C14", "C15", "C16", "C17", "C19", "C20"]
 
 
@@ -262,6 +298,13 @@ def _scratch(root, edits):
     shutil.copytree(os.path.join(root, "autograd"), os.path.join(d, "autograd"), ignore=shutil.ignore_patterns("__pycache__", "*.pyc"))
     if edits and edits[0][0] == "<reprint>":
         _reprint(d)
+        return d, "ok"
+    if edits and edits[0][0] == "<patch>":
+        import subprocess
+
+        r = subprocess.run(["patch", "-p1", "-s", "-i", edits[0][1]], cwd=d, capture_output=True, text=True)
+        if r.returncode != 0:
+            return d, f"inapplicable: {os.path.basename(os.path.dirname(edits[0][1]))}/patch.diff no longer applies"
         return d, "ok"
     for f, old, new in edits:
         p = os.path.join(d, f)
